@@ -3,7 +3,7 @@
 # (current working tree) and has crosshair-tool + z3-solver from the offline wheelhouse.
 set -e
 cd "$(dirname "$0")"
-V=/verif/.venv
+V="$(pwd)/.venv"
 if [ -x "$V/bin/crosshair" ] && "$V/bin/python" -c "import crosshair, z3, aioesphomeapi" 2>/dev/null; then
   exit 0
 fi
